@@ -39,6 +39,8 @@ struct History {
     stale: u8,
     runs: u8,
     edit_between: bool,
+    /// the directory is named by a toml file that lives in yet another directory (which must stay untouched)
+    use_toml: bool,
 }
 
 fn gen_history(t: &mut Tape) -> History {
@@ -46,7 +48,7 @@ fn gen_history(t: &mut Tape) -> History {
     let mut spec = tree::gen_tree(t, &TreeCfg { max_entries: 5, ..Default::default() }, &mut skipped);
     // never generate a file that is itself called solstat_report.md inside the tree root for cwd kinds 2/3 (it would be "the report")
     spec.retain(|e| e.name != "solstat_report.md");
-    History { spec, cwd_kind: t.below(4) as u8, stale: t.below(4) as u8, runs: t.range(1, 3) as u8, edit_between: t.chance(90) }
+    History { spec, cwd_kind: t.below(4) as u8, stale: t.below(5) as u8, runs: t.range(1, 3) as u8, edit_between: t.chance(90), use_toml: t.chance(70) }
 }
 
 fn first_subdir(spec: &[Entry]) -> Option<String> {
@@ -54,14 +56,15 @@ fn first_subdir(spec: &[Entry]) -> Option<String> {
 }
 
 fn run_history(env: &Env, h: &History, st: &mut Stats) -> Vec<Violation> {
-    let case = json!({"tree": tree::to_json(&h.spec), "cwd_kind": h.cwd_kind, "stale": h.stale, "runs": h.runs, "edit_between": h.edit_between});
+    let case = json!({"tree": tree::to_json(&h.spec), "cwd_kind": h.cwd_kind, "stale": h.stale, "runs": h.runs, "edit_between": h.edit_between, "use_toml": h.use_toml});
     let sc = Scratch::new("c18");
     let parent = sc.path.join("p");
     let root = parent.join("contracts");
     std::fs::create_dir_all(&root).unwrap();
     tree::materialize(&h.spec, &root);
     let sub = first_subdir(&h.spec);
-    let (cwd, args): (std::path::PathBuf, Vec<String>) = match h.cwd_kind {
+    let cfgdir = sc.path.join("config");
+    let (cwd, mut args): (std::path::PathBuf, Vec<String>) = match h.cwd_kind {
         0 => {
             let c = sc.path.join("elsewhere");
             std::fs::create_dir_all(&c).unwrap();
@@ -74,6 +77,15 @@ fn run_history(env: &Env, h: &History, st: &mut Stats) -> Vec<Violation> {
             None => (root.clone(), vec!["--path".into(), ".".into()]),
         },
     };
+    if h.use_toml {
+        // the configuration file lives elsewhere and names the directory; no --path
+        std::fs::create_dir_all(&cfgdir).unwrap();
+        let names = |cat: &str| crate::patterns::all().iter().filter(|p| p.category() == cat).map(|p| format!("\"{}\"", p.name)).collect::<Vec<_>>().join(", ");
+        std::fs::write(cfgdir.join("cfg.toml"), format!("path = '{}'\noptimizations = [{}]\nvulnerabilities = [{}]\nqa = [{}]\n", root.display(), names("optimizations"), names("vulnerabilities"), names("qa"))).unwrap();
+        std::fs::write(cfgdir.join("other.txt"), "keep me").unwrap();
+        args = vec!["--toml".into(), cfgdir.join("cfg.toml").to_str().unwrap().into()];
+        st.count("histories_with_configuration_file_elsewhere");
+    }
     st.mark("cwd_kinds", match h.cwd_kind { 0 => "separate", 1 => "parent-default-contracts", 2 => "analysed-dir-itself", _ => "sub-directory-of-tree" });
     let report_path = cwd.join("solstat_report.md");
     match h.stale {
@@ -82,6 +94,7 @@ fn run_history(env: &Env, h: &History, st: &mut Stats) -> Vec<Violation> {
         3 => std::fs::write(&report_path, "# Gas Optimizations - (Total Optimizations 1)\n## Optimal Comparison\n### Lines\n- Stale.sol:7\n\n\n").unwrap(),
         _ => {}
     }
+    let mut stale_same_length = h.stale == 4;
     if h.stale != 0 {
         st.count("histories_with_stale_report");
     }
@@ -109,8 +122,27 @@ fn run_history(env: &Env, h: &History, st: &mut Stats) -> Vec<Violation> {
             std::fs::write(root.join(&extra.name), tree::POOL[2]).unwrap();
             spec.push(extra);
         }
+        if stale_same_length {
+            // a stale report of exactly the length of the report to come, with different content
+            stale_same_length = false;
+            if let Some(mut r) = reference(&spec, st) {
+                if !r.is_empty() {
+                    for b in r.iter_mut() {
+                        if b.is_ascii_digit() {
+                            *b = b'0' + ((*b - b'0' + 1) % 10);
+                        } else if b.is_ascii_lowercase() {
+                            *b = b'x';
+                        }
+                    }
+                    std::fs::write(&report_path, &r).unwrap();
+                    st.count("histories_with_stale_report_of_equal_length");
+                }
+            }
+        }
         let mut before_tree = Snap::new();
         snapshot(&root, "", &mut before_tree);
+        let mut before_cfg = Snap::new();
+        snapshot(&cfgdir, "", &mut before_cfg);
         let mut before_cwd = Snap::new();
         snapshot(&cwd, "", &mut before_cwd);
         let a: Vec<&str> = args.iter().map(|s| s.as_str()).collect();
@@ -125,6 +157,11 @@ fn run_history(env: &Env, h: &History, st: &mut Stats) -> Vec<Violation> {
         snapshot(&root, "", &mut after_tree);
         let mut after_cwd = Snap::new();
         snapshot(&cwd, "", &mut after_cwd);
+        let mut after_cfg = Snap::new();
+        snapshot(&cfgdir, "", &mut after_cfg);
+        if before_cfg != after_cfg {
+            return vec![Violation::new("history", "configuration-directory-modified", "the directory holding the configuration file changed during the run (a file was created or modified there)", case)];
+        }
         // the analysed tree is unchanged, except for the report when cwd lies inside it
         let rel_report: Option<String> = report_path.strip_prefix(&root).ok().map(|p| p.to_string_lossy().to_string());
         let mut bt = before_tree.clone();
@@ -177,6 +214,7 @@ pub fn replay(env: &Env, _check: &str, case: &Value, st: &mut Stats) -> Vec<Viol
         stale: case.get("stale").and_then(|x| x.as_u64()).unwrap_or(0) as u8,
         runs: case.get("runs").and_then(|x| x.as_u64()).unwrap_or(1) as u8,
         edit_between: case.get("edit_between").and_then(|x| x.as_bool()).unwrap_or(false),
+        use_toml: case.get("use_toml").and_then(|x| x.as_bool()).unwrap_or(false),
     };
     run_history(env, &h, st)
 }
@@ -199,11 +237,11 @@ pub fn run(env: &Env) -> i32 {
     tape_stream(env, &mut st, "histories", env.tier.n(1000, 20_000), 700, |tape, s| {
         let mut t = Tape::new(tape);
         let h = gen_history(&mut t);
-        s.sample(1, || json!({"cwd_kind": h.cwd_kind, "stale": h.stale, "runs": h.runs, "edit_between": h.edit_between, "tree": crate::props::c03::summarize(&h.spec)}));
+        s.sample(1, || json!({"cwd_kind": h.cwd_kind, "stale": h.stale, "runs": h.runs, "edit_between": h.edit_between, "use_toml": h.use_toml, "tree": crate::props::c03::summarize(&h.spec)}));
         run_history(env, &h, s)
     });
     let meta = Meta {
-        rule: "cases = histories of 1-3 runs of the binary: generated tree, working directory in {separate empty directory, parent of ./contracts (default path), the analysed directory itself, a sub-directory of the analysed tree}, pre-existing solstat_report.md in {absent, unrelated text, 1 MiB text, report-like text}, optional edit of the tree between runs; oracle = byte snapshots (path -> type, content) of the analysed tree and of the working directory before/after each run are identical except that cwd/solstat_report.md exists afterwards, and its bytes equal the report of a run on the same tree from a fresh working directory; non-trivial = working directory inside or equal to the analysed tree with a stale report present, or >= 2 runs".into(),
+        rule: "cases = histories of 1-3 runs of the binary: generated tree, working directory in {separate empty directory, parent of ./contracts (default path), the analysed directory itself, a sub-directory of the analysed tree}, pre-existing solstat_report.md in {absent, unrelated text, 1 MiB text, report-like text, a text of exactly the length of the coming report with different content}, directory named by --path or by a configuration file that lives in a third directory (which must stay untouched), optional edit of the tree between runs; oracle = byte snapshots (path -> type, content) of the analysed tree and of the working directory before/after each run are identical except that cwd/solstat_report.md exists afterwards, and its bytes equal the report of a run on the same tree from a fresh working directory; non-trivial = working directory inside or equal to the analysed tree with a stale report present, or >= 2 runs".into(),
         assumptions: vec!["byte equality with a fresh run relies on the report being deterministic (C13, repaired)".into(), "the scratch area (/dev/shm) is only touched by the harness".into()],
         extra: json!({}),
         floors: vec![
